@@ -68,7 +68,7 @@ func h1MapKind(fld *types.Var) string {
 // RuleH1: every insert into a uniqueness collection is dominated by a membership
 // test on the same collection and key whose found-branch does not reach the insert.
 func RuleH1(c *Ctx) {
-	sc := c.Run.Begin("H1", "every insert into a uniqueness collection (catalog Tags/Servers/UserTypes/UserEnums/Interactions, core macro/uniqURLPath/onlyOneProtocolIntoURL/similarPaths/visited sets, allProjectProperties, inherited-property Unshift) is dominated by a membership test on the same collection and key whose found branch cannot reach it", 2)
+	sc := c.Run.Begin("H1", "every insert into a uniqueness collection (catalog Tags/Servers/UserTypes/UserEnums/Interactions, core macro/uniqURLPath/onlyOneProtocolIntoURL/similarPaths/visited sets, allProjectProperties, inherited-property Unshift) is dominated by a membership test on the same collection and key whose found branch cannot reach it", 1)
 	defer sc.End()
 	collFields := c.catalogCollFields()
 	if len(collFields) < 4 {
@@ -509,7 +509,7 @@ func (c *Ctx) checkUnshift(sc interface {
 // RuleH2: a directive parameter that becomes a key of a catalog collection is tested
 // for emptiness first.
 func RuleH2(c *Ctx) {
-	sc := c.Run.Begin("H2", "a NamedParameter value used as the key of a catalog collection insert is compared with \"\" (empty -> error) on every path, through parameters", 2)
+	sc := c.Run.Begin("H2", "a NamedParameter value used as the key of a catalog collection insert is compared with \"\" (empty -> error) on every path, through parameters", 1)
 	defer sc.End()
 	collFields := c.catalogCollFields()
 	named := c.Func("directive", "Directive.NamedParameter")
@@ -696,7 +696,7 @@ func emptinessGen(info *types.Info, cf *cfgx.Func, match func(ast.Expr) bool) fu
 // RuleH3: singleton slots of the catalog model are written only after a test that
 // they are still empty.
 func RuleH3(c *Ctx) {
-	sc := c.Run.Begin("H3", "every assignment of a singleton slot of the catalog model in the Catalog.Add* setters is dominated by a test that the slot is still zero (declared singletons are never silently overwritten)", 2)
+	sc := c.Run.Begin("H3", "every assignment of a singleton slot of the catalog model in the Catalog.Add* setters is dominated by a test that the slot is still zero (declared singletons are never silently overwritten)", 1)
 	defer sc.End()
 	pk := c.P.Pkg("catalog")
 	cat := c.Named("catalog", "Catalog")
@@ -935,7 +935,7 @@ func paramIndexOfLit(info *types.Info, lit *ast.FuncLit, obj types.Object) int {
 
 // RuleK1: every directive kind is consumed somewhere.
 func RuleK1(c *Ctx) {
-	sc := c.Run.Begin("K1", "each directive kind is either a key of the handler table or is matched by a consumer in the scan/compile stages (a kind with no consumer is silently dropped by addDirective)", 2)
+	sc := c.Run.Begin("K1", "each directive kind is either a key of the handler table or is matched by a consumer in the scan/compile stages (a kind with no consumer is silently dropped by addDirective)", 1)
 	defer sc.End()
 	dpk := c.P.Pkg("directive")
 	en := c.Named("directive", "Enumeration")
@@ -988,7 +988,7 @@ func RuleK1(c *Ctx) {
 // RuleCK1: handlers that register a path run the similar-paths check on every
 // successful path.
 func RuleCK1(c *Ctx) {
-	sc := c.Run.Begin("CK1", "every directive handler that derives path parameters (PathParameters) runs the similar-paths check on them on every path that does not end in an error", 2)
+	sc := c.Run.Begin("CK1", "every directive handler that derives path parameters (PathParameters) runs the similar-paths check on them on every path that does not end in an error", 1)
 	defer sc.End()
 	pp := c.Func("core", "PathParameters")
 	chk := c.similarPathsCheck(pp)
@@ -1136,7 +1136,7 @@ func freshLocal(pk *pkgT, cf *cfgx.Func, e ast.Expr) bool {
 // second declaration (the same macro pasted twice, the same file included twice) into a
 // silent success.
 func RuleMC1(c *Ctx) {
-	sc := c.Run.Begin("MC1", "for every collection whose inserter rejects an existing key, no function that reaches that inserter returns success under the fact 'the key is already present' without having called the inserter", 2)
+	sc := c.Run.Begin("MC1", "for every collection whose inserter rejects an existing key, no function that reaches that inserter returns success under the fact 'the key is already present' without having called the inserter", 1)
 	defer sc.End()
 	// collection fields: selector X.f where the type of f (or what it points to) has methods Set and Has
 	isColl := func(t types.Type) bool {
